@@ -267,8 +267,15 @@ func VerifC02FlagGroupsShaped() {
 	b := vNondetStrOf("b", 3, c02Alphabet)
 	q := vNondetStrOf("q", 2, c02Alphabet)
 	t := p + op + b
+	if o2 := vParam("opener2"); o2 >= 0 {
+		// a second opener (two real groups, two look-alikes, or one of each)
+		t += openers[o2] + vNondetStrOf("c", 2, c02Alphabet)
+	}
 	if vParam("close") == 1 {
 		t += ")"
+	}
+	if vParam("close") == 2 {
+		t += "))"
 	}
 	t += q
 	vAssume(pgPlus(t))
